@@ -119,6 +119,18 @@ def scratch_violation_is_a_sum_of_positive_parts(ctx, rid="R2"):
                 via_env = True
             if via_env:
                 bad.append(c)
+    # ... or at the very end: the violation field of the result is max(total, 0)
+    for k in ctx.prog.family(key):
+        f = ctx.fd(k)
+        if f is None:
+            continue
+        for i in f.body.instrs():
+            if i.kind == "assign" and i.rv_kind() == "agg" and i.rv.get("adt") == TRANSITION and "total_maintenance_violation" in (i.rv.get("fields") or []):
+                op = i.ops[i.rv["fields"].index("total_maintenance_violation")]
+                d = direct_def_instr(f, op)
+                if d is not None and d.kind == "call" and (d.decl or d.callee or "").endswith("::max"):
+                    seen += 1
+                    bad.append(d)
     if bad:
         ctx.bad(o, "max(.., 0) at %s clamps an accumulator captured from the enclosing function (the running total), not the counter of the "
                 "cycle at hand: a cycle with slack hides another cycle's violation in the cached total" % bad[0].line(), loc=bad[0].line())
